@@ -4,8 +4,12 @@
    coq/gen/FlagRules.v) and the generated obligations are compiled by coqc:
      gen/FlagOblig.v  rule_no_other (every flag expression recognised) and modelled_* (the
                       rules proved sound in theories/Fxp.v are the rules in the source);
-     gen/FlagCover.v  rule_consults_all (a rule setting the flags of a result computed from a
-                      list consults ALL elements of that list).
+     gen/FlagCover.v  rule_consults_all = forallb site_ok: a rule setting the flags of a result (i) consults
+                      ALL elements of every list it reads, (ii) consults EVERY secret operand of the
+                      result (the parameters passed to gather; an operand is exempt only if every caller
+                      guards its integrality), (iii) is evaluated on the operands as they are when
+                      their shares are taken (no assignment mixing another parameter into an operand
+                      between the rule and the gather).
 2. Proofs: coq/props/C03.v (flag soundness per scalar operation, skip_trunc_safe, ...).
 3. SEARCH: for every site failing rule_consults_all, the minimal program is synthesised from the
    rule (list with integral elements exactly at the consulted indices, through that operation,
@@ -47,7 +51,8 @@ MANIFEST = {
             'preservation lemmas). Findings: F-C03-2..10 (first-element rule at _reshare, vector_add, vector_sub, scalar_mul, '
             '_if_else_list, _if_swap_list, schur_prod, matrix_prod, random_derangement) repaired in /repo by 9bcd50d; F-C03-12/13 '
             '(vector_add/vector_sub adding public ints unscaled while marking the result integral) repaired by 4609d39; their table '
-            'entries are now all-elements rules and vector_add/vector_sub are checked against the proved rule. OPEN: F-C03-1 '
+            'entries are now all-elements rules and vector_add/vector_sub are checked against the proved rule. OPEN: F-C03-14 (np_sum '
+            'ignores the integrality of `initial`; NumPy path, probed under /verif/.venv-np), F-C03-1 '
             '(mpc.input/_distribute still takes the flag of every list element from x[0]) and F-C03-11 (mpc.input takes the flag of '
             'all received sharings from the local party\'s own value, parties disagree).',
     'technique': 'Coq proof over scaled-integer model + regenerated rule table with compiled coverage obligation + synthesised witness programs',
@@ -63,6 +68,24 @@ def quiet_close(sim):
     except Exception:  # noqa
         pass
     sim.close()
+
+
+def run_limited(sim, prog, secs, **kw):
+    """sim.run with a wall-clock limit (an exception inside an MPyC coroutine can leave the simulator's
+    round loop spinning); returns None on timeout."""
+    import signal
+
+    def onalarm(signum, frame):
+        raise TimeoutError('sim.run exceeded %ds' % secs)
+    old = signal.signal(signal.SIGALRM, onalarm)
+    signal.alarm(secs)
+    try:
+        return sim.run(prog, **kw)
+    except TimeoutError:
+        return None
+    finally:
+        signal.alarm(0)
+        signal.signal(signal.SIGALRM, old)
 
 
 def flatten(z):
@@ -89,20 +112,79 @@ def expr_names(e, kind):
 # --------------------------------------------------------------------------------------------
 # SEARCH: synthesise the minimal program of a failing site
 
-def synth_args(site, secfxp, f, variant):
+def site_reasons(site):
+    """Why a site fails the obligation (python mirror of Fxp.site_ok, used for signatures and synthesis):
+    list of ('elements', x) | ('operand', p) | ('late', p, q)."""
+    e = site['expr']
+    out = []
+    names = {x for (x, k) in expr_names(e, 'Idx')}
+    alls = {x for (x,) in expr_names(e, 'AllOf')}
+    lit = site['dims'][-1] if site['dims'] and isinstance(site['dims'][-1], int) and site['dims'][-1] > 0 else None
+    for x in sorted(names - alls):
+        ks = {k for (y, k) in expr_names(e, 'Idx') if y == x}
+        if not (lit and all(i in {k % lit for k in ks} for i in range(lit))):
+            out.append(('elements', x))
+    reads = bool(expr_names(e, 'Idx') or expr_names(e, 'AllOf') or expr_names(e, 'Elem') or expr_names(e, 'Other'))
+    if reads:
+        mentioned = names | alls | {a for (a,) in expr_names(e, 'Elem')}
+        for p in site['operands']:
+            if p not in site['exempt'] and p not in mentioned:
+                out.append(('operand', p))
+    for lt in site['late']:
+        p, q = lt.split('<-')
+        out.append(('late', p, q))
+    return out
+
+
+def site_sig(site, reasons):
+    fn = site['func'].split('.')[-1]
+    r = reasons[0] if reasons else ('elements', '?')
+    if r[0] == 'elements':
+        first_only = all(k == 0 for (_, k) in expr_names(site['expr'], 'Idx'))
+        return ('flag-first-element site=%s' % fn) if first_only else \
+            ('flag-partial-elements site=%s idx=%s' % (fn, sorted({k for (_, k) in expr_names(site['expr'], 'Idx')})))
+    if r[0] == 'operand':
+        return 'flag-operand-not-consulted site=%s operand=%s' % (fn, r[1])
+    return 'flag-before-modification site=%s operand=%s by=%s' % (fn, r[1], r[2])
+
+
+def synth_args(site, secfxp, f, variant, bad=(), sval=1, badkind='secure'):
     """Arguments for the site's function: list operands get integral elements exactly at the
-    consulted indices (so the rule says 'integral'), non-integral elsewhere."""
+    consulted indices (so the rule says 'integral'), non-integral elsewhere; operands in `bad`
+    (not consulted by the rule / mixed in after the rule was evaluated) are fractional; scalar
+    operands of unknown role (e.g. a condition) take the value sval."""
     idx = {}
     for (x, k) in expr_names(site['expr'], 'Idx'):
         idx.setdefault(x, set()).add(k)
     allof = {x for (x,) in expr_names(site['expr'], 'AllOf')}
     elems = {a for (a,) in expr_names(site['expr'], 'Elem')}
-    eps = 3 * 2.0 ** -f
     n = 2 + variant
-    args, desc = [], []
-    for pj, pname in enumerate(site['required']):
+    lists = [p for p in site['params'] if p in idx or p in allof]
+    depth0 = max([site['depth'].get(p, 1) for p in lists] or [0])
+    args, kwargs, desc = [], {}, []
+    for pj, pname in enumerate(site['params']):
         eps = (3 + 4 * pj) * 2.0 ** -f
+        required = pname in site['required']
         if pname == 'self':
+            continue
+        if pname in bad:
+            if lists and pname in site.get('listlike', []):
+                val = [eps * (i + 1) + 0.25 for i in range(n)]
+                if depth0 >= 2:
+                    val = [[eps * (i + j + 1) + 0.25 for j in range(n)] for i in range(n)]
+                    obj = [[secfxp(v) for v in r] for r in val]
+                else:
+                    obj = [secfxp(v) for v in val]
+            else:
+                val = 0.25 + eps
+                obj = secfxp(val) if badkind == 'secure' else val
+            desc.append((pname, val if isinstance(val, list) or badkind != 'secure' else 'secfxp(%r)' % val))
+            if required:
+                args.append(obj)
+            else:
+                kwargs[pname] = obj
+            continue
+        if not required:
             continue
         if pname in idx:
             ks = {k % n for k in idx[pname]}
@@ -116,22 +198,72 @@ def synth_args(site, secfxp, f, variant):
                 args.append([secfxp(v) for v in row])
             desc.append((pname, val))
         elif pname in allof:
-            val = [2.0, 1.0][:n]
-            args.append([secfxp(v) for v in val])
+            if depth0 >= 2 or site['depth'].get(pname, 1) >= 2:
+                val = [[2.0, 1.0, 3.0][:n] for _ in range(n)]
+                args.append([[secfxp(v) for v in r] for r in val])
+            else:
+                val = [2.0, 1.0, 3.0][:n]
+                args.append([secfxp(v) for v in val])
             desc.append((pname, val))
         elif pname in elems:
-            args.append(secfxp(1))
-            desc.append((pname, 1))
+            args.append(secfxp(sval))
+            desc.append((pname, sval))
         elif pname == 'senders':
             args.append([0])
             desc.append((pname, [0]))
         elif pname in ('sectype', 'sftype', 'stype'):
             args.append(secfxp)
             desc.append((pname, 'secfxp'))
-        else:   # unknown role: an integral scalar 1 (e.g. the condition of _if_else_list)
-            args.append(secfxp(1))
-            desc.append((pname, 1))
-    return args, desc
+        else:   # unknown role: an integral scalar (e.g. the condition of _if_else_list)
+            args.append(secfxp(sval))
+            desc.append((pname, sval))
+    return args, kwargs, desc
+
+
+NP_PROBE = r'''
+import sys, json
+repo, fn, l, f, arrs, bad = sys.argv[1], sys.argv[2], int(sys.argv[3]), int(sys.argv[4]), json.loads(sys.argv[5]), json.loads(sys.argv[6])
+sys.argv = ['x', '--no-log']
+sys.path.insert(0, repo)
+from mpyc.runtime import mpc
+import numpy as np
+mpc.run(mpc.start())
+secfxp = mpc.SecFxp(l, f)
+kw = {p: secfxp.array(np.array([1.0, 2.0])) for p in arrs}
+kw.update({p: 0.25 + 3 * 2.0 ** -f for p in bad})
+z = getattr(mpc, fn)(**kw)
+flag = bool(z.integral)
+v = mpc.run(mpc.output(z, raw=True))
+vals = [int(x) for x in (v.flatten().tolist() if hasattr(v, 'flatten') else [v])] if not isinstance(v, list) else [int(x) for x in v]
+print('RESULT ' + json.dumps({'flag': flag, 'vals': [int(getattr(x, 'value', x)) for x in vals], 'kw': {p: str(kw[p])[:40] for p in kw}}))
+'''
+
+
+def np_probe(site, bad):
+    """NumPy-array site: run the operation in the NumPy interpreter (/verif/.venv-np): consulted array
+    operands whole, the operands in `bad` a public fraction. Returns (hit-detail | None, problem | None)."""
+    import subprocess
+    from lib.core import PYNP, REPO
+    if not os.path.exists(PYNP):
+        return None, 'no NumPy interpreter at %s' % PYNP
+    fn = site['func'].split('.')[-1]
+    arrs = [a for (a,) in expr_names(site['expr'], 'Elem') if a in site['params']]
+    l, f = 32, 16
+    try:
+        p = subprocess.run([PYNP, '-c', NP_PROBE, REPO, fn, str(l), str(f), json.dumps(arrs), json.dumps(sorted(bad))],
+                           stdout=subprocess.PIPE, stderr=subprocess.PIPE, text=True, timeout=120)
+    except Exception as exc:  # noqa
+        return None, repr(exc)[:200]
+    line = [x for x in p.stdout.split('\n') if x.startswith('RESULT ')]
+    if p.returncode or not line:
+        return None, (p.stderr or p.stdout)[-300:]
+    r = json.loads(line[-1][7:])
+    wrong = [v for v in r['vals'] if r['flag'] and v % 2 ** f]
+    if wrong:
+        return {'site': site['key'], 'function': site['func'], 'rule': site['expr'], 'type': [l, f],
+                'inputs': {**{a: 'secfxp.array([1., 2.])' for a in arrs}, **{b: 0.25 + 3 * 2.0 ** -f for b in bad}},
+                'result_scaled': r['vals'], 'result_flag': r['flag'], 'wrong': 'flag true, value not whole'}, None
+    return None, 'probe ran without a wrong flag: %s' % r
 
 
 def run_search(ctx, Sim, failing, sites):
@@ -141,74 +273,79 @@ def run_search(ctx, Sim, failing, sites):
         site = next(s for s in sites if s['key'] == key)
         fn = site['func'].split('.')[-1]
         modname = 'mpyc.' + site['file'][:-3]
-        first_only = all(k == 0 for (_, k) in expr_names(site['expr'], 'Idx'))
-        sig = ('flag-first-element site=%s' % fn) if first_only else \
-            ('flag-partial-elements site=%s idx=%s' % (fn, sorted({k for (_, k) in expr_names(site['expr'], 'Idx')})))
+        reasons = site_reasons(site)
+        sig = site_sig(site, reasons)
+        bad = {r[1] for r in reasons if r[0] == 'operand'} | {r[2] for r in reasons if r[0] == 'late'}
         hit = None
         problems = []
-        for (l, f) in [(32, 16), (16, 8)]:
-            for variant in (0, 1):
-                rec = {}
+        if fn.startswith('np_') or fn.startswith('_np_'):
+            hit, prob = np_probe(site, bad)
+            ctx.case({'search': key, 'np': True}, nontrivial=True, kind='search')
+            if prob:
+                problems.append(prob)
+            variants = []
+        else:
+            variants = [(l, f, variant, sval, badkind) for (l, f) in [(32, 16), (16, 8)] for variant in (0, 1)
+                        for sval in ((1, 0) if (bad or not reasons) else (1,))
+                        for badkind in (('float', 'secure') if bad else ('secure',))]
+        for (l, f, variant, sval, badkind) in variants:
+            rec = {}
 
-                async def prog(mpc, mods, pid, l=l, f=f, variant=variant, rec=rec):
-                    secfxp = mpc.SecFxp(l, f)
-                    args, desc = synth_args(site, secfxp, f, variant)
-                    rec['desc'] = desc
-                    if args is None:
-                        rec['nosynth'] = desc
-                        return
-                    target = getattr(mpc, fn, None) if site['func'].startswith('Runtime.') else \
-                        getattr(mods[modname], fn, None)
-                    if target is None:
-                        rec['nosynth'] = 'function %s not reachable' % site['func']
-                        return
-                    try:
-                        z = target(*args)
-                        if hasattr(z, '__await__') and not isinstance(z, list):
-                            z = await z
-                        zs = [a for a in flatten(z) if isinstance(a, mpc.SecureFixedPoint)]
-                        outs = []
-                        for a in zs:
-                            v = int(await mpc.output(a, raw=True))
-                            w = None
-                            if abs(v) < 2 ** (l - 2):
-                                w = int(await mpc.output(a * a, raw=True))
-                            outs.append((v, bool(a.integral), w))
-                        rec['outs'] = outs
-                    except Exception as exc:  # noqa
-                        rec['exc'] = repr(exc)[:200]
-                sim = Sim(m=1, t=0, seed=ctx.seed)
+            async def prog(mpc, mods, pid, l=l, f=f, variant=variant, sval=sval, badkind=badkind, rec=rec):
+                secfxp = mpc.SecFxp(l, f)
+                args, kwargs, desc = synth_args(site, secfxp, f, variant, bad, sval, badkind)
+                rec['desc'] = desc
+                target = getattr(mpc, fn, None) if site['func'].startswith('Runtime.') else \
+                    getattr(mods[modname], fn, None)
+                if target is None:
+                    rec['nosynth'] = 'function %s not reachable' % site['func']
+                    return
                 try:
-                    sim.start()
-                    r = sim.run(prog, idle_limit=3000, spins=20)
-                finally:
-                    quiet_close(sim)
-                ctx.case({'search': key, 'type': [l, f], 'variant': variant}, nontrivial=True, kind='search')
-                if 'nosynth' in rec or 'exc' in rec or r[0] is not None:
-                    problems.append({k: rec.get(k) for k in ('nosynth', 'exc')} | {'run': str(r[0])[:200]})
-                    continue
-                for (v, flag, w) in rec['outs']:
-                    bad_flag = flag and v % 2 ** f != 0
-                    bad_prod = w is not None and abs(w * 2 ** f - v * v) >= 2 ** f
-                    if bad_flag or bad_prod:
-                        hit = {'site': key, 'function': site['func'], 'rule': site['expr'], 'type': [l, f],
-                               'inputs': rec['desc'], 'result_scaled': v, 'result_flag': flag,
-                               'square_scaled': w, 'square_exact_scaled': str(Fr(v * v, 2 ** f)),
-                               'wrong': 'flag true, value not whole' if bad_flag else 'product wrong'}
-                        break
-                if hit:
+                    z = target(*args, **kwargs)
+                    if hasattr(z, '__await__') and not isinstance(z, list):
+                        z = await z
+                    zs = [a for a in flatten(z) if isinstance(a, mpc.SecureFixedPoint)]
+                    half = secfxp(secfxp.field(2 ** (f - 1) + 1), integral=False)
+                    outs = []
+                    for a in zs:
+                        v = int(await mpc.output(a, raw=True))
+                        w = None
+                        if abs(v) < 2 ** (l - 2):
+                            w = int(await mpc.output(a * half, raw=True))
+                        outs.append((v, bool(a.integral), w))
+                    rec['outs'] = outs
+                except Exception as exc:  # noqa
+                    rec['exc'] = repr(exc)[:200]
+            sim = Sim(m=1, t=0, seed=ctx.seed)
+            try:
+                sim.start()
+                r = run_limited(sim, prog, 600, idle_limit=3000, spins=20)
+            finally:
+                quiet_close(sim)
+            ctx.case({'search': key, 'type': [l, f], 'variant': [variant, sval, badkind]}, nontrivial=True, kind='search')
+            if r is None or 'nosynth' in rec or 'exc' in rec or r[0] is not None:
+                problems.append({k: rec.get(k) for k in ('nosynth', 'exc')} | {'run': str(r and r[0])[:200]})
+                continue
+            for (v, flag, w) in rec['outs']:
+                bad_flag = flag and v % 2 ** f != 0
+                bad_prod = w is not None and abs(w * 2 ** f - v * (2 ** (f - 1) + 1)) >= 2 ** f
+                if bad_flag or bad_prod:
+                    hit = {'site': key, 'function': site['func'], 'rule': site['expr'], 'reasons': reasons, 'type': [l, f],
+                           'inputs': rec['desc'], 'result_scaled': v, 'result_flag': flag,
+                           'times_(0.5+2^-f)_scaled': w, 'times_exact_scaled': str(Fr(v * (2 ** (f - 1) + 1), 2 ** f)),
+                           'wrong': 'flag true, value not whole' if bad_flag else 'product wrong'}
                     break
             if hit:
                 break
         if hit:
             ctx.violation(sig, hit)
             found[key] = True
-            ctx.log('search: %s -> failing input found (%s)' % (key, hit['wrong']))
+            ctx.log('search: %s %s -> failing input found (%s)' % (key, reasons, hit['wrong']))
         else:
             found[key] = False
-            ctx.broken.append({'kind': 'obligation', 'what': 'rule_consults_all fails at %s' % key,
+            ctx.broken.append({'kind': 'obligation', 'what': 'rule_consults_all fails at %s %s' % (key, reasons),
                                'search': problems[:3] or 'synthesised programs ran without a wrong flag/product'})
-            ctx.log('search: %s -> no failing input (%s)' % (key, problems[:1]))
+            ctx.log('search: %s %s -> no failing input (%s)' % (key, reasons, problems[:1]))
     return found
 
 
@@ -570,7 +707,7 @@ def oracle(rec):
         return [('exact', g(0) * 2 ** ex)]
     if op == 'pow':
         return [('pow', (g(0), ex))]
-    if op == 'sum':
+    if op in ('sum', 'sum_start'):
         return [('exact', sum(x[0] for x in ins))]
     if op == 'min':
         return [('exact', min(x[0] for x in ins))]
@@ -657,7 +794,7 @@ def check_record(ctx, rec, failing_fns):
         mixed = fn is not None and any(is_mixed_list(x) for x in rec['ins'] if isinstance(x, list) and x and isinstance(x[0], list)) \
             or (fn is not None and op in ('sum', 'prod', 'min', 'max') and is_mixed_list(rec['ins']))
         if fn in failing_fns and mixed:
-            sig = 'flag-first-element site=%s' % fn
+            sig = failing_fns[fn]
         else:
             sig = 'flag-wrong op=%s kind=%s' % (op, bad[0][0])
         ctx.violation(sig, {'record': rec, 'problems': bad[:4]})
@@ -685,7 +822,7 @@ def model_expr(rec, p):
         return both(lambda b: 'mul %s %s %s %s (PFloat %s)' % (zlit(p), zlit(f), b, fx(ins[0]), zlit(ex)))
     if op == 'lshift':
         return '[%s]' % out('flshift %s %s %s' % (zlit(f), fx(ins[0]), zlit(ex)))
-    if op == 'sum':
+    if op in ('sum', 'sum_start'):
         return '[%s]' % out('fsum [%s]' % '; '.join(fx(x) for x in ins))
     if op == 'in_prod':
         return both(lambda b: 'in_prod %s %s %s [%s] [%s]' % (zlit(p), zlit(f), b, '; '.join(fx(x) for x in ins[0]),
@@ -726,7 +863,7 @@ def public_int_probe(ctx, Sim, sites):
             sim = Sim(m=1, t=0, seed=ctx.seed)
             try:
                 sim.start()
-                sim.run(prog, idle_limit=3000, spins=20)
+                run_limited(sim, prog, 600, idle_limit=3000, spins=20)
             finally:
                 quiet_close(sim)
             ctx.case({'public_int_probe': site['key'], 'type': [l, f]}, nontrivial=True, kind='public-int-operand')
@@ -757,7 +894,7 @@ def input_flag_test(ctx, Sim):
         sim = Sim(m=m, t=t, no_prss=no_prss, seed=ctx.seed + 5)
         try:
             sim.start()
-            res = sim.run(prog, idle_limit=400)
+            res = run_limited(sim, prog, 900, idle_limit=400) or ['TIMEOUT']
             ctx.case({'input_flags': vals, 'm': m, 'no_prss': no_prss}, nontrivial=True, kind='input-own-value')
             if any(not isinstance(r, list) for r in res):
                 ctx.broken.append({'kind': 'run', 'what': 'input flag program did not complete', 'res': str(res)[:300]})
@@ -802,43 +939,73 @@ def layout_values(l, f, n, mask, shift=0):
     return out
 
 
-def make_layout_prog(l, f, nmax_nary, nmax_list, records):
+def make_layout_prog(l, f, nmax_nary, nmax_list, records, shared=False, cfg=(1, 0)):
+    """shared=True (multi-party): every element is genuinely shared by mpc.input (one scalar at a time,
+    all parties pass the same public placeholder), and only the list if_else / sum-with-start /
+    following-multiplication part is run."""
     U = 2 ** f
+    HALF = U // 2 + 1                     # 0.5 + 2^-f, a fraction
 
     async def prog(mpc, mods, pid):
         secfxp = mpc.SecFxp(l, f)
+        rec_on = pid == 0
 
         def mk(vf):
             v, fl = vf
-            return secfxp(v // U) if fl else secfxp(secfxp.field(v), integral=False)
+            a = secfxp(v // U) if fl else secfxp(secfxp.field(v), integral=False)
+            return mpc.input(a, senders=0) if shared else a
 
         async def emit(op, ins, z, extra=None):
             zs = flatten(z)
             vals = [int(v) for v in await mpc.output(zs, raw=True)]
-            records.append({'t': [l, f], 'op': op, 'ins': ins, 'vals': vals, 'flags': [bool(a.integral) for a in zs],
-                            'extra': extra, 'cfg': [1, 0], 'layout': True})
+            flags = [bool(a.integral) for a in zs]
+            if rec_on:
+                records.append({'t': [l, f], 'op': op, 'ins': ins, 'vals': vals, 'flags': flags,
+                                'extra': extra, 'cfg': list(cfg), 'layout': True})
+            return zs, vals, flags
+
+        async def mul_after(res):
+            """the operation that relies on the marks: multiply every result by a fraction"""
+            zs, vals, flags = res
+            half = mk([HALF, False])
+            for a, v, fl in zip(zs, vals, flags):
+                if abs(v) < 2 ** (l - 3):
+                    await emit('mul', [[v, fl], [HALF, False]], a * half)
         for n in range(1, nmax_nary + 1):
             for mask in range(2 ** n):
                 xs = layout_values(l, f, n, mask)
                 ys = layout_values(l, f, n, (mask * 5 + 3) % (2 ** n), shift=3)
                 try:
                     X, Y = [mk(v) for v in xs], [mk(v) for v in ys]
-                    await emit('prod', xs, mpc.prod(X))
-                    await emit('sum', xs, mpc.sum(X))
-                    await emit('in_prod', [xs, ys], mpc.in_prod(X, Y))
-                    await emit('in_prod', [xs, xs], mpc.in_prod(X, X))
+                    if not shared:
+                        await emit('prod', xs, mpc.prod(X))
+                        await emit('sum', xs, mpc.sum(X))
+                        await emit('in_prod', [xs, ys], mpc.in_prod(X, Y))
+                        await emit('in_prod', [xs, xs], mpc.in_prod(X, X))
                     if n <= nmax_list:
-                        await emit('min', xs, mpc.min(X))
-                        await emit('max', xs, mpc.max(X))
-                        await emit('vector_add', [xs, ys], mpc.vector_add(X, Y))
-                        await emit('vector_sub', [xs, ys], mpc.vector_sub(X, Y))
-                        await emit('schur_prod', [xs, ys], mpc.schur_prod(X, Y))
-                        a = ys[0]
-                        await emit('scalar_mul', [a, xs], mpc.scalar_mul(mk(a), X))
-                        c = mask & 1
-                        await emit('if_else_list', [xs, ys], mpc.if_else(secfxp(c), X, Y), extra=c)
+                        if not shared:
+                            await emit('min', xs, mpc.min(X))
+                            await emit('max', xs, mpc.max(X))
+                            await emit('vector_add', [xs, ys], mpc.vector_add(X, Y))
+                            await emit('vector_sub', [xs, ys], mpc.vector_sub(X, Y))
+                            await emit('schur_prod', [xs, ys], mpc.schur_prod(X, Y))
+                            a = ys[0]
+                            await emit('scalar_mul', [a, xs], mpc.scalar_mul(mk(a), X))
+                        # list if_else with BOTH conditions, both role assignments, then a multiplication
+                        for c in (0, 1):
+                            cc = mk([c * U, True])
+                            await mul_after(await emit('if_else_list', [xs, ys], mpc.if_else(cc, X, Y), extra=c))
+                            if mask in (0, 2 ** n - 1):     # x uniform: also the mirrored roles
+                                await mul_after(await emit('if_else_list', [ys, xs], mpc.if_else(cc, Y, X), extra=c))
+                        # sum with a start value of every kind
+                        starts = [('int', 2, [2 * U, True]), ('float', 0.3, [round(0.3 * U), False]),
+                                  ('secure-whole', None, [3 * U, True]), ('secure-fraction', None, [U // 4 + 1, False])]
+                        for kind, pub, sv in starts:
+                            st = pub if pub is not None else mk(sv)
+                            await mul_after(await emit('sum_start', xs + [sv], mpc.sum(X, st), extra=kind))
                 except Exception as exc:  # noqa
-                    records.append({'t': [l, f], 'op': 'layout n=%d mask=%d' % (n, mask), 'exc': repr(exc)[:200]})
+                    if rec_on:
+                        records.append({'t': [l, f], 'op': 'layout n=%d mask=%d' % (n, mask), 'exc': repr(exc)[:200]})
         return len(records)
     return prog
 
@@ -853,11 +1020,22 @@ def layout_stream(ctx, Sim, records):
         sim = Sim(m=1, t=0, seed=ctx.seed + 11)
         try:
             sim.start()
-            res = sim.run(make_layout_prog(l, f, nn, nl, recs), idle_limit=20000, spins=400)
+            res = run_limited(sim, make_layout_prog(l, f, nn, nl, recs), 900, idle_limit=20000, spins=400) or ['TIMEOUT']
         finally:
             quiet_close(sim)
         if any(not isinstance(x, int) for x in res):
             ctx.broken.append({'kind': 'run', 'what': 'layout program did not complete', 'type': [l, f], 'res': str(res)[:300]})
+        records += recs
+    for (m, t, l, f, nn) in [(3, 1, 32, 16, ctx.n(2, 3)), (3, 1, 16, 8, ctx.n(2, 3))]:
+        recs = []
+        sim = Sim(m=m, t=t, seed=ctx.seed + 12)
+        try:
+            sim.start()
+            res = run_limited(sim, make_layout_prog(l, f, nn, nn, recs, shared=True, cfg=(m, t)), 600, idle_limit=6000) or ['TIMEOUT']
+        finally:
+            quiet_close(sim)
+        if any(not isinstance(x, int) for x in res):
+            ctx.broken.append({'kind': 'run', 'what': 'shared layout program did not complete', 'cfg': [m, t, l, f], 'res': str(res)[:300]})
         records += recs
     ctx.extra['layout_records'] = len(records) - n0
     ctx.extra['exhaustive'] = True
@@ -910,7 +1088,7 @@ def constructor_stream(ctx, Sim):
         sim = Sim(m=1, t=0, seed=ctx.seed + 13)
         try:
             sim.start()
-            sim.run(prog, idle_limit=20000, spins=200)
+            run_limited(sim, prog, 600, idle_limit=20000, spins=200)
         finally:
             quiet_close(sim)
         if len(rec) != len(cases):
@@ -976,7 +1154,7 @@ def run(ctx):
     if ok:
         res = ctx.coq_eval(['MPyC.Fxp', 'MPyCGen.FlagRules'],
                            ['failing_sites rules', 'other_sites rules',
-                            'forallb covers_all_elements (filter is_setting_site rules)'],
+                            'forallb site_ok (filter is_setting_site rules)'],
                            preamble='Open Scope string_scope.')
         if any(isinstance(r, tuple) and r and r[0] == 'ERROR' for r in res):
             ctx.broken.append({'kind': 'obligation', 'what': 'cannot evaluate failing_sites', 'detail': str(res)[:500]})
@@ -998,21 +1176,20 @@ def run(ctx):
     ctx.extra['failing_rule_consults_all'] = failing
     ctx.extra['guard_sites_first_element'] = [s['key'] for s in sites if s['kind'] == 'guard'
                                               and expr_names(s['expr'], 'Idx') and not expr_names(s['expr'], 'AllOf')]
-    # python-side mirror of the obligation, used only if Coq could not be consulted
+    # python-side mirror of the obligation: must agree with Coq; used alone only if Coq could not be consulted
+    mirror = [s_['key'] for s_ in sites if s_['kind'] != 'guard' and site_reasons(s_)]
+    if ok and sorted(mirror) != sorted(failing):
+        ctx.broken.append({'kind': 'obligation', 'what': 'Coq failing_sites and the python mirror disagree',
+                           'coq': failing, 'mirror': mirror})
     if not ok:
-        for s in sites:
-            if s['kind'] != 'guard':
-                names = {x for (x, k) in expr_names(s['expr'], 'Idx')}
-                alls = {x for (x,) in expr_names(s['expr'], 'AllOf')}
-                lit = s['dims'][-1] if s['dims'] and isinstance(s['dims'][-1], int) else None
-                for x in names - alls:
-                    ks = {k for (y, k) in expr_names(s['expr'], 'Idx') if y == x}
-                    if not (lit and all(i in {k % lit for k in ks} for i in range(lit))):
-                        if s['key'] not in failing:
-                            failing.append(s['key'])
+        failing = mirror
+    ctx.extra['failing_reasons'] = {k: site_reasons(next(s_ for s_ in sites if s_['key'] == k)) for k in failing}
     # ---- 2. search at failing sites
     found = run_search(ctx, Sim, failing, sites)
-    failing_fns = {next(s for s in sites if s['key'] == k)['func'].split('.')[-1] for k in failing}
+    failing_fns = {}
+    for k in failing:
+        s_ = next(s for s in sites if s['key'] == k)
+        failing_fns.setdefault(s_['func'].split('.')[-1], site_sig(s_, site_reasons(s_)))
     input_flag_test(ctx, Sim)
     public_int_probe(ctx, Sim, sites)
     # ---- 3. random programs
@@ -1038,8 +1215,8 @@ def run(ctx):
         sim = Sim(m=m, t=t, seed=ctx.seed * 131 + r)
         try:
             sim.start()
-            res = sim.run(make_prog(l, f, ctx.seed * 7907 + r * 31 + l, ctx.n(70, 200) if m == 1 else ctx.n(40, 120), recs, use_input),
-                          idle_limit=4000, spins=(400 if m == 1 else 1))
+            res = run_limited(sim, make_prog(l, f, ctx.seed * 7907 + r * 31 + l, ctx.n(70, 200) if m == 1 else ctx.n(40, 120), recs, use_input),
+                              600, idle_limit=4000, spins=(400 if m == 1 else 1)) or ['TIMEOUT']
         finally:
             quiet_close(sim)
         if any(not isinstance(x, int) for x in res):
